@@ -35,14 +35,21 @@ pub open spec fn res_merge_path(r: Seq<u8>, b: Seq<u8>) -> Seq<u8> {
               else { normalize_text(fit_path(sch, r_auth(b), parent_text(r_path(b))), fa, false) };
     fit_path(sch, r_auth(b), sym_append_text(dir, segs(rp), fa, false))
 }
-/// the path of the four branches that do not merge: the reference's own path normalised in place
-/// (NB in-place normalisation renders the RFC 5.2.4 segment sequence WITHOUT the trailing '/' a final dot
-/// segment leaves - recorded finding of C06), or the base path when the reference's path is empty
+/// does the path end in a dot segment ("." or "..")?
+pub open spec fn dot_last(p: Seq<u8>) -> bool { !p_is_empty(p) && (is_dot(last_seg(p)) || is_dotdot(last_seg(p))) }
+/// RFC 3986 5.2.4 on a path in its context: in-place normalisation plus the trailing '/' (an empty last segment) that a
+/// final dot segment leaves, unless nothing is left
+pub open spec fn rds_text(p: Seq<u8>, fa: bool, at0: bool) -> Seq<u8> {
+    let t = normalize_text(p, fa, at0);
+    if dot_last(p) && !p_is_empty(t) { push_text(t, sq0(), fa, at0) } else { t }
+}
+/// the path of the four branches that do not merge: RFC 5.2.4 on the reference's own path (rds_text), or the base
+/// path when the reference's path is empty
 pub open spec fn res_path_unmerged(r: Seq<u8>, b: Seq<u8>, n: Seq<u8>) -> bool {
-    if x_has_sch(r) { r_path(n) == normalize_text(r_path(r), x_has_auth(r), false) }
-    else if x_has_auth(r) { r_path(n) == normalize_text(r_path(r), true, false) }
+    if x_has_sch(r) { r_path(n) == rds_text(r_path(r), x_has_auth(r), false) }
+    else if x_has_auth(r) { r_path(n) == rds_text(r_path(r), true, false) }
     else if r_path(r).len() == 0 { r_path(n) == r_path(b) }
-    else if r_path(r)[0] == 47 { r_path(n) == normalize_text(r_path(r), x_has_auth(b), false) }
+    else if r_path(r)[0] == 47 { r_path(n) == rds_text(r_path(r), x_has_auth(b), false) }
     else { true }
 }
 
@@ -82,14 +89,14 @@ verus! {
 /// C06, meaning of the unmerged branches (corollary of lemma_normalize_segs): when the reference has a scheme, an
 /// authority or an absolute path, the segments of the target path are the RFC 3986 5.2.4 / Errata 4547 normalized
 /// sequence of the reference's own path (norm_fold = remove_dot_segments on segments), preceded by a '.' shield
-/// only where the rendering needs one. NB the RFC text additionally ends in '/' when the reference's last segment is
-/// a dot segment; in-place normalisation does not write it (recorded finding).
+/// only where the rendering needs one. When the reference's last segment is a dot segment the code additionally pushes
+/// the empty segment RFC 5.2.4 leaves (rds_text; the list-level statement of that case is not proved here).
 pub proof fn lemma_res_unmerged_rfc(r: Seq<u8>, b: Seq<u8>, n: Seq<u8>)
     requires ref_shape(r), res_select(r, b, n),
         x_has_sch(r) || x_has_auth(r) || (r_path(r).len() > 0 && r_path(r)[0] == 47),
     ensures ({
         let fa = if x_has_sch(r) { x_has_auth(r) } else if x_has_auth(r) { true } else { x_has_auth(b) };
-        !lone_empty_unshielded(r_path(r), fa, false) ==>
+        !lone_empty_unshielded(r_path(r), fa, false) && !dot_last(r_path(r)) ==>
             segs(r_path(n)) =~= shield_seq(r_path(r), fa, false) + norm_segs(r_path(r)) && p_is_abs(r_path(n)) == p_is_abs(r_path(r))
     }),
 {
